@@ -18,8 +18,13 @@
 //   Q<c>,<t>,<m>  m's loop takes c's vote request of term t     P<c>,<t>,<m>  c takes m's reply
 //   X<c>,<t>,<m>  request or reply lost                           E<c>,<t>,<m>  the call fails with an error
 //   H<k> / D<k>   deliver / drop the k-th health check in flight
+//   R<i>:<kind>:<session>:<obo>:<shape>   a client request dispatched by the real Session.dispatch on node i
+//                 (zz_verif_c17b_test.go)
 // answer:   after every event  "<term>,<leader>,<ring class>,<partitioned>,<active nodes>" per node,
 //           nodes separated by ';', events by '|'.  A node whose run loop panicked ends the line with PANIC.
+//           Suffix of a delivery: '#H:<to>,<leader>,<term>,<signature equals the receiver's before>,<nodes>,
+//           <receiver's ring afterwards is the ring of these nodes>' ('#H:-' nothing delivered),
+//           '#Q:<granted>,<term of the reply>' ('#Q:-' not delivered), '#R:...' see zz_verif_c17b_test.go.
 package main
 
 import (
@@ -290,7 +295,15 @@ func c17Election(w []string) string {
 	for _, ev := range w[2:] {
 		nt.reconnectAll()
 		kind, arg := ev[0], ev[1:]
+		suffix := ""
 		switch kind {
+		case 'R':
+			f := strings.Split(arg, ":")
+			c := nt.cl["n"+f[0]]
+			if c == nil {
+				return "bad event " + ev
+			}
+			suffix = c17bClientRequest(c, arg)
 		case 'T':
 			f := strings.Split(arg, ":")
 			name := "n" + f[0]
@@ -355,6 +368,9 @@ func c17Election(w []string) string {
 			nt.mu.Lock()
 			call := nt.calls[c17Key(cand, term, m)]
 			nt.mu.Unlock()
+			if kind == 'Q' {
+				suffix = "#Q:-"
+			}
 			if call == nil {
 				break
 			}
@@ -374,6 +390,7 @@ func c17Election(w []string) string {
 				}
 				call.resp = c17Resp{seq: call.seq, vote: resp}
 				call.state = 2
+				suffix = "#Q:" + vB2s(resp.Result) + "," + strconv.Itoa(resp.Term)
 			case 'P':
 				if call.state != 2 {
 					break
@@ -405,6 +422,9 @@ func c17Election(w []string) string {
 			}
 		case 'H', 'D':
 			k := c17Idx(arg)
+			if kind == 'H' {
+				suffix = "#H:-"
+			}
 			nt.mu.Lock()
 			if k >= len(nt.hnet) {
 				nt.mu.Unlock()
@@ -419,8 +439,11 @@ func c17Election(w []string) string {
 			nt.mu.Unlock()
 			if kind == 'H' {
 				var unused bool
+				sigBefore := nt.cl[h.to].ring.Signature()
 				nt.cl[h.to].Health(h.h, &unused)
 				nt.barrier(h.to)
+				suffix = fmt.Sprintf("#H:%s,%s,%d,%s,%s,%s", h.to[1:], h.h.Leader[1:], h.h.Term, vB2s(h.h.Signature == sigBefore),
+					c17bDigits(h.h.Nodes), vB2s(nt.cl[h.to].ring.Signature() == c17bSigOf(h.h.Nodes)))
 			}
 		default:
 			return "bad event " + ev
@@ -436,7 +459,7 @@ func c17Election(w []string) string {
 			out = append(out, "PANIC "+strings.ReplaceAll(strings.Join(dead, " / "), " ", "_"))
 			return strings.Join(out, "|")
 		}
-		out = append(out, nt.observe())
+		out = append(out, nt.observe()+suffix)
 	}
 	return strings.Join(out, "|")
 }
